@@ -335,6 +335,43 @@ def main():
     lines.append("sm " + " ".join(ops))
     expect.append(("sm", nsaved, dict(ops=ops)))
 
+    # ---------------- rolling back to an iteration saved before the first solve restores the virgin material ----------------
+    for dimv in (2, 3):
+        identv = dict(simulation="InElastic", dim=dimv, ops=["Save_Iter (before any solve)", "solve 0.05, Save_Iter", "solve 0.08, Save_Iter", "Set_Iter(0)", "solve 0.0005"])
+        res.case(("virgin-rollback", dimv))
+        try:
+            meshv = M.mesh_2d("QUAD4", 2.0, 1.0, 0.5) if dimv == 2 else M.mesh_3d("HEXA8", 2.0, 1.0, 1.0, 1.0, 1)
+            unkv = ["x", "y", "z"][:dimv]
+            lv = meshv.Nodes_Conditions(lambda x, y, z: x == 0)
+            rv = meshv.Nodes_Conditions(lambda x, y, z: x == 2.0)
+
+            def mkv():
+                return Simulations.InElastic(meshv, Behavior(dimv, Models.Elastic.Isotropic(3, E=100.0, v=0.3), yieldSurface=Yield.VonMises(1.0), hardening=IsotropicHardening.Linear(20.0), thickness=1.0))
+
+            def stepv(sim_, val):
+                sim_.Bc_Init()
+                sim_.add_dirichlet(lv, [0.0] * dimv, unkv)
+                sim_.add_dirichlet(rv, [val], ["x"])
+                sim_.Solve()
+            sv = mkv()
+            sv.Save_Iter()
+            for val in (0.05, 0.08):
+                stepv(sv, val)
+                sv.Save_Iter()
+            sv.Set_Iter(0)
+            pz = max((float(np.abs(np.asarray(a)).max()) for a in getattr(sv, "_InElastic__zOld").values()), default=0.0)
+            if pz > 0:
+                res.fail("roll-back to a virgin iteration keeps a history", f"after Set_Iter(0) (iteration saved before the first solve) the committed internal variables reach {pz:.3e} instead of 0", identv)
+            else:
+                stepv(sv, 0.0005)
+                fv = mkv()
+                stepv(fv, 0.0005)
+                gapv = np.abs(np.asarray(sv.Result("Stress", nodeValues=False)) - np.asarray(fv.Result("Stress", nodeValues=False))).max()
+                if gapv > 1e-8:
+                    res.fail("roll-back to a virgin iteration keeps a history", f"an elastic step solved after Set_Iter(0) differs from the same step on a fresh simulation: stress gap {gapv:.3e}", identv)
+        except Exception as ex:  # noqa: BLE001
+            res.fail("roll-back to a virgin iteration raises", f"{type(ex).__name__}: {str(ex)[:140]}", identv)
+
     # ---------------- MaterialPoint.Run: mixed strain / stress control; only the converged step of each increment advances the history ----------------
     from EasyFEA.Models.InElastic import MaterialPoint
     mp_cases = [(n_, mk_) for n_, mk_, inf_ in combos if inf_["dim"] == 3 and not inf_.get("rate") and n_ in ("VM+linear 3D", "VM+Voce+AF 3D", "Hill+Swift 3D", "VM+Prager 3D")]
